@@ -307,11 +307,13 @@ class AbstractDateTime(AnyAtomicType):
                 return value
 
             case YearMonthDuration():
+                # Use astronomical years for calculation (year 0 is 1 BCE)
+                year = self._year if self._year > 0 else self._year + 1
                 month = op(self._dt.month - 1, other.months) % 12 + 1
-                year = self._year + op(self._dt.month - 1, other.months) // 12
+                year += op(self._dt.month - 1, other.months) // 12
                 day = adjust_day(year, month, self._dt.day)
 
-                if year > 0:
+                if 1 <= year <= 9999:
                     dt = self._dt.replace(year=year, month=month, day=day)
                 elif isleap(year):
                     dt = self._dt.replace(year=4, month=month, day=day)
@@ -319,8 +321,8 @@ class AbstractDateTime(AnyAtomicType):
                     dt = self._dt.replace(year=6, month=month, day=day)
 
                 kwargs = {k: getattr(dt, k) for k in self.pattern.groupindex.keys()}
-                if year <= 0:
-                    kwargs['year'] = year
+                if not 1 <= year <= 9999:
+                    kwargs['year'] = year if year > 0 else year - 1
                 return type(self)(**kwargs)
 
             case _:
